@@ -1171,6 +1171,26 @@ def with_lazy_time(case):
     return case
 
 
+def gen_lazy_infos(rng):
+    """metadata that becomes known only in the connect phase on BOTH sides: two or three producers that push the infos of
+    their outputs in the connect phase (lazytime) and consumers with several inputs, fed by different producers, that
+    declare their inputs without metadata and hand the requested infos to their FIRST try_connect call only.  Which
+    input can be exchanged in which connect round depends on the listing order; the outcome must not (seeded C05_s)."""
+    unit = rng.choice(UNITS)
+    npro = rng.choice([2, 2, 3])
+    comps = [{"kind": "T", "start": 0, "steps": [unit * rng.choice([1, 2, 3])], "initpull": False, "nout": 1, "inputs": [],
+              "lazytime": True} for _ in range(npro)]
+    ncon = 1 if npro == 3 else rng.choice([1, 2])
+    for _ in range(ncon):
+        srcs = rng.sample(range(npro), rng.choice([2, npro]))
+        comps.append({"kind": "T", "start": 0, "steps": [unit * rng.choice([1, 2, 3])], "initpull": rng.random() < 0.5,
+                      "nout": 0, "lazyin": True, "lazytime": rng.random() < 0.3,
+                      "inputs": [{"src": [s_, 0], "chain": [["pass"]] if rng.random() < 0.25 else []} for s_ in srcs]})
+    order = list(range(len(comps)))
+    rng.shuffle(order)
+    return {"comps": permute(comps, order), "end": unit * rng.choice([4, 6, 9])}
+
+
 def gen_connect_chain(rng):
     """a chain of 3-5 time components, each needing its predecessor's initial data in the connect phase; the components
     carry the SAME name (nobody called with_name: finam names a component after its class)"""
